@@ -114,10 +114,24 @@ class GroupSpec:
     def I(self):
         return eye(self.msize, self.zero, self.one)
 
+    @property
+    def asize(self):
+        """size of the Lie-algebra matrix as documented (SO2: 2, SO3: 3, else the homogeneous size)"""
+        return self.msize
+
+    def hat_h(self, t):
+        """hat(t) embedded in the homogeneous (msize x msize) representation"""
+        return self.hat(t)
+
     def basis(self, i):
         e = [self.zero] * self.dof
         e[i] = self.one
         return self.hat(e)
+
+    def basis_h(self, i):
+        e = [self.zero] * self.dof
+        e[i] = self.one
+        return self.hat_h(e)
 
 
 def _lst(c):
@@ -141,10 +155,17 @@ class SO2Spec(GroupSpec):
     def rot_part(self, c):
         return _lst(c)
 
+    asize = 2
+
     def hat(self, t):
         (th,) = _lst(t)
-        m = _zeros(3, 3, self.zero)
+        m = _zeros(2, 2, self.zero)
         m[0, 1], m[1, 0] = -th, th
+        return m
+
+    def hat_h(self, t):
+        m = _zeros(3, 3, self.zero)
+        m[:2, :2] = self.hat(t)
         return m
 
     def lift(self, c, d):
@@ -206,7 +227,12 @@ class SO3Spec(GroupSpec):
     def rot_part(self, c):
         return _lst(c)
 
+    asize = 3
+
     def hat(self, t):
+        return skew3(t, self.zero)
+
+    def hat_h(self, t):
         m = _zeros(4, 4, self.zero)
         m[:3, :3] = skew3(t, self.zero)
         return m
@@ -404,10 +430,21 @@ class BundleSpec(GroupSpec):
             out += e.valid_eqs(ce)
         return out
 
+    @property
+    def asize(self):
+        return sum(e.asize for e in self.elems)
+
     def hat(self, t):
+        n = self.asize
+        m = _zeros(n, n, self.zero)
+        for o, e, te in zip(self.offsets("asize"), self.elems, self.split(t, "dof")):
+            m[o:o + e.asize, o:o + e.asize] = e.hat(te)
+        return m
+
+    def hat_h(self, t):
         m = _zeros(self.msize, self.msize, self.zero)
         for o, e, te in zip(self.offsets("msize"), self.elems, self.split(t, "dof")):
-            m[o:o + e.msize, o:o + e.msize] = e.hat(te)
+            m[o:o + e.msize, o:o + e.msize] = e.hat_h(te)
         return m
 
     def lift(self, c, d):
